@@ -39,8 +39,9 @@ Inductive out :=
 
 Inductive ev :=
 | EConnect (c : cid) (id : sid) (v5 clean : bool) (expiry : option Z) (w : option will)
-| ESubscribe (id : sid) (t : topic)
+| ESubscribe (id : sid) (k : N)                      (* k = topic * 2 + (1 if No Local) *)
 | EPublish (tag : N) (t : topic)                     (* by some other client, QoS 1 *)
+| EPublishBy (id : sid) (tag : N) (t : topic)        (* by the session of identifier id *)
 | ERetain (tag : N) (t : topic)                      (* the same with the RETAIN flag: also replaces the topic's retained message *)
 | EUnretain (t : topic)                              (* retained publish with empty payload: the retained message is removed *)
 | EDisconnect (id : sid) (with_will : bool) (expiry : option Z)   (* the client's DISCONNECT *)
@@ -146,11 +147,19 @@ Fixpoint fire_all (t : Z) (l : list (sid * srec)) : list (sid * srec) * list out
       ((i, r') :: l', o ++ os)
   end.
 
-Definition publish (s : st) (tag : N) (t : topic) : st * list out :=
+(* a subscription is kept as the number  topic * 2 + (1 if No Local) *)
+Definition sub_topic (k : N) : topic := N.div2 k.
+Definition sub_nl (k : N) : bool := N.odd k.
+(* does subscription k receive a publish on topic t ([self]: published by the subscriber's own session) *)
+Definition smatch (self : bool) (t : topic) (k : N) : bool := N.eqb (sub_topic k) t && negb (sub_nl k && self).
+Definition is_self (who : option sid) (i : sid) : bool := match who with Some w => N.eqb w i | None => false end.
+
+(* a QoS 1 publish on topic t, by another client (who = None) or by the session of identifier w *)
+Definition publish_by (who : option sid) (s : st) (tag : N) (t : topic) : st * list out :=
   let step := fun (acc : list (sid * srec) * list out) (ir : sid * srec) =>
     let '(l, os) := acc in
     let '(i, r) := ir in
-    if existsb (N.eqb t) (s_subs r) then
+    if existsb (smatch (is_self who i) t) (s_subs r) then
       match s_conn r with
       | Some c => (l ++ [(i, r)], os ++ [ODeliver c tag])
       | None => (l ++ [(i, mkS None (s_v5 r) (s_durable r) (s_expiry r) (s_subs r) (s_queue r ++ [tag]) (s_present r) (s_expire_at r) (s_will r) (s_will_at r))], os)
@@ -158,6 +167,7 @@ Definition publish (s : st) (tag : N) (t : topic) : st * list out :=
     else (l ++ [(i, r)], os) in
   let '(l, os) := fold_left step (sess s) ([], []) in
   (mkSt (now s) l (preempt s) (stopped s) (retained s), os).
+Definition publish := publish_by None.
 
 Definition retained_of (t : topic) (l : list (topic * N)) : list N :=
   map snd (filter (fun x => N.eqb (fst x) t) l).
@@ -165,15 +175,16 @@ Definition set_retained (t : topic) (tag : option N) (l : list (topic * N)) : li
   let l' := filter (fun x => negb (N.eqb (fst x) t)) l in
   match tag with Some g => l' ++ [(t, g)] | None => l' end.
 
-(* SUBSCRIBE (also a repeated one) hands the topic's retained message to the connection *)
-Definition subscribe (s : st) (id : sid) (t : topic) : st * list out :=
+(* SUBSCRIBE with subscription key k (also a repeated one: it replaces the subscription to that topic)
+   hands the topic's retained message to the connection *)
+Definition subscribe (s : st) (id : sid) (k : N) : st * list out :=
   let r := get id (sess s) in
   match s_conn r with
   | None => (s, [])
   | Some c =>
-      let subs := if existsb (N.eqb t) (s_subs r) then s_subs r else s_subs r ++ [t] in
+      let subs := filter (fun k' => negb (N.eqb (sub_topic k') (sub_topic k))) (s_subs r) ++ [k] in
       (mkSt (now s) (put id (mkS (s_conn r) (s_v5 r) (s_durable r) (s_expiry r) subs (s_queue r) (s_present r) (s_expire_at r) (s_will r) (s_will_at r)) (sess s)) (preempt s) (stopped s) (retained s),
-       map (ODeliver c) (retained_of t (retained s)))
+       map (ODeliver c) (retained_of (sub_topic k) (retained s)))
   end.
 
 (* Stop: every attached connection is closed (its will is published: the end is not a client
@@ -193,6 +204,7 @@ Definition step (s : st) (e : ev) : st * list out :=
   | EConnect c id v5 clean expiry w => if stopped s then (s, []) else connect s c id v5 clean expiry w
   | ESubscribe id t => subscribe s id t
   | EPublish tag t => publish s tag t
+  | EPublishBy id tag t => publish_by (Some id) s tag t
   | ERetain tag t =>
       let '(s1, o) := publish s tag t in
       (mkSt (now s1) (sess s1) (preempt s1) (stopped s1) (set_retained t (Some tag) (retained s1)), o)
